@@ -667,3 +667,44 @@ End Arr1.
 (* x * 0 = 0 at the reals *)
 Lemma reals_mul_zero : forall x : T ROps, mul ROps x (@zero ROps) = @zero ROps.
 Proof. intros x. unfold zero. cbn. apply Rmult_0_r. Qed.
+
+(* ================================================================== phase 3: the READERS are functions of the file alone
+   (the cases KRead2 / KRead1 of Model.C16h): whatever wrote the file, whatever was read or written before, and whatever
+   the header says, Array2D.from_fits returns the selected HDU's data (turned back when the flag is on), unmasked, with
+   the pixel scales of the ARGUMENT, the cards of HDU 0 as header_sci_obj and those of the selected HDU as header_hdu_obj. *)
+Section Readers.
+  Context {O : NumOps} (L : lawful O).
+  Local Notation V := (T O).
+
+  Theorem Array2D_from_fits_of_file flip (fs : fitsfs V (list V)) p sc k hl h h0 :
+    lookup (files fs) p = Some hl -> py_nth hl k = Some h -> py_nth hl 0 = Some h0 ->
+    exists a, Array2D_from_fits flip fs p sc k = FOk (a, hhdr h0, hhdr h)
+      /\ Array2D_native a = flip_hdu_for_ds9 flip (hdata h)
+      /\ a_mask a = all_false2 (flip_hdu_for_ds9 flip (hdata h)) /\ a_scales a = sc.
+  Proof.
+    intros Hf Hk H0.
+    destruct (Array2D_no_mask_native L (flip_hdu_for_ds9 flip (hdata h)) sc) as [a [E [H1 [H2 H3]]]].
+    exists a. split; [|auto].
+    unfold Array2D_from_fits, numpy_array_2d_via_fits_from, header_obj_from, hdu_at, fits_open.
+    rewrite Hf. cbn [fbind]. rewrite Hk, H0. cbn [fbind].
+    unfold flip_hdu_for_ds9 in E. destruct flip; cbn [fbind]; rewrite E; reflexivity.
+  Qed.
+  Theorem Array2D_from_fits_no_file flip (fs : fitsfs V (list V)) p sc k :
+    lookup (files fs) p = None -> Array2D_from_fits flip fs p sc k = FRaise FileNotFound.
+  Proof. intros Hf. unfold Array2D_from_fits, numpy_array_2d_via_fits_from, hdu_at, fits_open. now rewrite Hf. Qed.
+  Theorem Array2D_from_fits_bad_index flip (fs : fitsfs V (list V)) p sc k hl :
+    lookup (files fs) p = Some hl -> py_nth hl k = None -> Array2D_from_fits flip fs p sc k = FRaise IndexErr.
+  Proof. intros Hf Hk. unfold Array2D_from_fits, numpy_array_2d_via_fits_from, hdu_at, fits_open. rewrite Hf. cbn [fbind]. now rewrite Hk. Qed.
+
+  Theorem Array1D_from_fits_of_file (fs : fitsfs V V) p sc k hl h h0 :
+    lookup (files fs) p = Some hl -> py_nth hl k = Some h -> py_nth hl 0 = Some h0 ->
+    exists a, Array1D_from_fits fs p sc k = FOk (a, hhdr h0, hhdr h)
+      /\ Array1D_native a = hdata h /\ b_mask a = all_false1 (hdata h) /\ b_scale a = sc.
+  Proof.
+    intros Hf Hk H0.
+    destruct (Array1D_no_mask_native L (hdata h) sc) as [H1 [H2 H3]].
+    exists (Array1D_no_mask (hdata h) sc). split; [|auto].
+    unfold Array1D_from_fits, numpy_array_1d_via_fits_from, header_obj_from, hdu_at, fits_open.
+    rewrite Hf. cbn [fbind]. rewrite Hk, H0. reflexivity.
+  Qed.
+End Readers.
